@@ -28,10 +28,11 @@ WALL_CAP = {'quick': 130.0, 'thorough': 2700.0}
 # evaluation of one crash state (I1)
 
 class StateEvaluator:
-    def __init__(self, world, out_path, bak_path):
+    def __init__(self, world, out_path, bak_path, ignore=()):
         self.world = world
         self.out = out_path
         self.bak = bak_path
+        self.ignore = set(ignore)  # files (and the saves into them) that belong to another results file
         self.load_memo = {}
         self.n_loads = 0
 
@@ -39,6 +40,8 @@ class StateEvaluator:
         """by_sha: bytes of acknowledged complete files; by_content: every attempt whose content is known."""
         by_sha, by_content = {}, {}
         for i, s in enumerate(self.world.saves):
+            if s['path'] in self.ignore:
+                continue
             if s['completed'] and s['sha1'] is not None:
                 by_sha.setdefault(s['sha1'], set()).add(i + 1)
             if s['content'] is not None:
@@ -49,9 +52,47 @@ class StateEvaluator:
         """Number (1-based index) of the last acknowledged complete save; 0 if none."""
         n = 0
         for i, s in enumerate(self.world.saves):
-            if s['completed']:
+            if s['completed'] and s['path'] not in self.ignore:
                 n = i + 1
         return n
+
+    def n_ack_at(self, k):
+        """The same for the prefix of the recorded run that ends before file-system op k."""
+        n = 0
+        for i, s in enumerate(self.world.saves):
+            if s['completed'] and s['path'] not in self.ignore and s['marker'] <= k:
+                n = i + 1
+        return n
+
+    def check_ground_state_file(self, files):
+        """`exc` configurations: the ground-state results file that the simulation started from (and rewrites when
+        it writes converged environments back) is a results file like any other: at every crash state the file or
+        its backup must load as the original or as the rewritten content."""
+        gs = getattr(self.world, '_gs', None)
+        if gs is None:
+            return None
+        known = {s['content'] for s in self.world.saves if s['path'] == gs['path'] and s['content'] is not None}
+        states = []
+        for p in (gs['path'], gs['bak']):
+            raw = files.get(p)
+            if raw is None:
+                states.append('absent')
+                continue
+            if hashlib.sha1(raw).hexdigest() == gs['sha1']:
+                return None
+            key = ('gs', hashlib.sha1(raw).hexdigest())
+            if key not in self.load_memo:
+                self.n_loads += 1
+                try:
+                    self.load_memo[key] = W.content_digest(self.world.load_bytes(p, bytes(raw)))
+                except Exception:  # noqa: BLE001
+                    self.load_memo[key] = None
+            if self.load_memo[key] is not None and self.load_memo[key] in known:
+                return None
+            states.append('partial' if self.load_memo[key] is None else 'loads_unknown')
+        return (f'the ground-state results file {gs["path"]} that the simulation rewrites (write-back of converged '
+                f'environments) is {states[0]} and its backup {gs["bak"]} is {states[1]}: no complete ground-state '
+                f'file remains')
 
     def classify(self, raw, by_sha, by_content, path):
         """-> ('absent',) | ('partial',) | ('complete', set_of_checkpoint_numbers) | ('loads_unknown',)"""
@@ -100,7 +141,7 @@ class StateEvaluator:
         # keeps the complete file under a third name for a while (temporary file + rotation) also satisfies it.
         ext = '.' + self.out.rsplit('.', 1)[-1]
         for p in sorted(files):
-            if p in (self.out, self.bak) or not p.endswith(ext):
+            if p in (self.out, self.bak) or not p.endswith(ext) or p in self.ignore:
                 continue
             c = self.classify(files.get(p), by_sha, by_content, p)
             if c[0] == 'complete' and max(c[1]) >= n_done:
@@ -133,8 +174,23 @@ def paths_for(cfg):
 # ---------------------------------------------------------------------------------------------
 # reference (fault-free) run and the sweep over its crash states
 
+def gs_paths(cfg):
+    g = W.gs_file(cfg)
+    return g, g[:-len(cfg['ext'])] + '.backup' + cfg['ext']
+
+
+def make_evaluator(world, cfg):
+    out_p, bak_p = paths_for(cfg)
+    return StateEvaluator(world, out_p, bak_p, ignore=gs_paths(cfg) if cfg['family'] == 'exc' else ())
+
+
 def new_world(cfg, ref_bytes=None):
     world = W.World(cfg)
+    if cfg['family'] == 'exc' and ref_bytes is not None:
+        g, gb = gs_paths(cfg)
+        world.fs.files[g] = bytearray(ref_bytes)
+        world._gs = {'path': g, 'bak': gb, 'sha1': hashlib.sha1(ref_bytes).hexdigest()}
+        return world
     if cfg['preexisting_output'] and ref_bytes is not None:
         out, _ = paths_for(cfg)
         world.fs.files[out] = bytearray(ref_bytes)
@@ -153,6 +209,13 @@ def reference_run(cfg):
     first (produced by a plain run of the same configuration)."""
     params = W.build_params(cfg)
     pre = None
+    if cfg['family'] == 'exc':
+        cfg0 = dict(cfg, family='idmrg')
+        w0 = W.World(cfg0)
+        o0 = w0.run_segment(('fresh', W.build_gs_params(cfg)), clock_seed=core.sub_seed(cfg['seed'], 'clock-pre'))
+        if o0['outcome'] != 'finished':
+            return None, o0, None
+        pre = bytes(w0.fs.files[W.gs_file(cfg)])
     if cfg['preexisting_output']:
         cfg0 = dict(cfg, preexisting_output=False)
         w0 = W.World(cfg0)
@@ -208,12 +271,14 @@ def neighbour_untouched(nb, files):
 def sweep(world, cfg, tier, rng, stats):
     """Evaluate I1 on crash states reconstructed from the op log of the fault-free run."""
     out_p, bak_p = paths_for(cfg)
-    ev = StateEvaluator(world, out_p, bak_p)
+    ev = make_evaluator(world, cfg)
     by_sha, by_content = ev.index_saves()
     oplog = world.fs.oplog
     markers = [s['marker'] for s in world.saves if s['completed']]
     base_saves = sum(1 for s in world.saves if s['segment'] < 0)  # pre-existing file
     files = {}
+    if getattr(world, '_gs', None):
+        files[world._gs['path']] = bytearray(world._pre_bytes)
     if base_saves:
         s0 = world.saves[0]
         # the pre-existing file was put in place without log entries
@@ -233,9 +298,12 @@ def sweep(world, cfg, tier, rng, stats):
         pick = set(range(n_ops + 1))
     violations = []
     for k in range(n_ops + 1):
-        n_done = sum(1 for m in markers if m <= k)
+        n_done = ev.n_ack_at(k)
         if k in pick:
             ok, cls, detail = ev.check(files, n_done, by_sha, by_content)
+            gs_bad = ev.check_ground_state_file(files)
+            if ok and gs_bad:
+                ok, cls, detail = False, ('ground_state_file',) + tuple(cls), gs_bad
             stats['sweep_states'] += 1
             stats['state_classes'][cls] += 1
             stats['distinct'].add(core.h64(('sweep', cfg['ext'], cls, oplog[k][0] if k < n_ops else 'end',
@@ -266,6 +334,9 @@ def sweep(world, cfg, tier, rng, stats):
                         f2 = dict(files)
                         f2[op[1]] = torn_buf
                         ok, cls, detail = ev.check(f2, n_done, by_sha, by_content)
+                        gs_bad = ev.check_ground_state_file(f2)
+                        if ok and gs_bad:
+                            ok, cls, detail = False, ('ground_state_file',) + tuple(cls), gs_bad
                         stats['sweep_states'] += 1
                         stats['torn_states'] += 1
                         stats['state_classes'][cls] += 1
@@ -530,7 +601,7 @@ def run_history(plan, ref_results, pre_bytes, stats, nb=None):
                           f'simulation: files now {sorted(world.fs.files)}', 'facts': f, 'trace': trace}
     world.fs.record = False  # the op log (with all bytes written) is only needed for the sweep of reference runs
     out_p, bak_p = paths_for(cfg)
-    ev = StateEvaluator(world, out_p, bak_p)
+    ev = make_evaluator(world, cfg)
     start = ('fresh', W.build_params(cfg))
     faults = list(plan['faults'])
     seg = 0
@@ -599,6 +670,12 @@ def run_history(plan, ref_results, pre_bytes, stats, nb=None):
             nv = neighbour_violation(facts)
             if nv is not None:
                 return nv
+            gs_bad = ev.check_ground_state_file(world.fs.files)
+            if gs_bad:
+                return {'invariant': 'disk.ground_state_file_destroyed', 'detail': gs_bad, 'facts': facts,
+                        'trace': trace}
+            if cfg['family'] == 'exc':
+                return None  # nothing was resumed: nothing to compare
             break
         if o['outcome'] == 'no_progress':
             return {'invariant': 'resume.no_progress' if start[0] == 'resume' else 'run.no_progress',
@@ -615,6 +692,9 @@ def run_history(plan, ref_results, pre_bytes, stats, nb=None):
         nv = neighbour_violation(facts)
         if nv is not None:
             return nv
+        gs_bad = ev.check_ground_state_file(world.fs.files)
+        if gs_bad:
+            return {'invariant': 'disk.ground_state_file_destroyed', 'detail': gs_bad, 'facts': facts, 'trace': trace}
         ok, cls, detail = ev.check(own_files(), n_done)
         stats['crash_state_classes'][cls] += 1
         stats['distinct'].add(core.h64(('live', cfg['family'], cfg['ext'], seg, fired, o['outcome'], cls,
@@ -629,6 +709,10 @@ def run_history(plan, ref_results, pre_bytes, stats, nb=None):
             return {'invariant': inv, 'detail': detail, 'facts': facts, 'trace': trace}
         if seg + 1 >= max_segments:
             break
+        if cfg['family'] == 'exc':
+            # OrthogonalExcitations.resume_run_algorithm is a NotImplementedError('TODO'), as for VUMPS below
+            stats['probes']['exc_history_ends_at_first_crash'] += 1
+            return None
         if cfg['family'] == 'vumps':
             # vumps.py documents resume_run as NotImplementedError('TODO'): resuming is an explicitly
             # unsupported feature there, so only the file-consistency half (I1) is checked
@@ -753,7 +837,8 @@ def _run_config(idx, tier, seed, ctx):
             tear = sv['torn']
             plan = {'cfg': cfg, 'faults': [{'kind': 'kill', 'at_op': sv['k'], 'tear': tear}], 'clock_seed': 0,
                     'from_sweep': True}
-            violations.append({'invariant': ('disk.partial_file_loads' if 'loads_unknown' in sv['state_class']
+            violations.append({'invariant': ('disk.ground_state_file_destroyed' if 'ground_state_file' in sv['state_class']
+                                             else 'disk.partial_file_loads' if 'loads_unknown' in sv['state_class']
                                              else 'disk.no_complete_file'), 'detail': '[sweep] ' + sv['detail'],
                                'facts': {'family': cfg['family'], 'ext': cfg['ext'], 'segment': 0, 'start': 'fresh',
                                          'fault_kind': 'kill', 'state_class': list(sv['state_class']),
